@@ -199,8 +199,10 @@ def check(repo, tier):
     entry = f'{MOD}.gram'
     for p in ((1, 2, 3, 4, 5) if tier == 'thorough' else (1, 2, 3)):
         scen = f'gram({p} modes)'
-        for overlapping in (False, True):
-            scen = f'gram({p} modes, {"time-lagged views of one trajectory" if overlapping else "independent data sets"})'
+        for overlapping, xdt in ((False, 'real'), (True, 'real'), (False, 'int')):
+            if xdt == 'int' and p != 2:
+                continue
+            scen = f'gram({p} modes, {"time-lagged views of one trajectory" if overlapping else "independent data sets"}{", integer data" if xdt == "int" else ""})'
 
             def body(sc):
                 m1, m2 = sc.atom('m1'), sc.atom('m2')
@@ -210,8 +212,8 @@ def check(repo, tier):
                     x2 = z[:, 1:]
                     x1.tags['role'], x2.tags['role'] = 'x_1', 'x_2'
                 else:
-                    x1 = Arr([2, m1], None, 'real', None, {'role': 'x_1'}, 'x_1')
-                    x2 = Arr([2, m2], None, 'real', None, {'role': 'x_2'}, 'x_2')
+                    x1 = Arr([2, m1], None, xdt, None, {'role': 'x_1'}, 'x_1')
+                    x2 = Arr([2, m2], None, xdt, None, {'role': 'x_2'}, 'x_2')
                 basis = [[BasisFn(i, k) for k in range(2 + (i % 2))] for i in range(p)]
                 sc.inputs = (x1, x2)
                 return sc.call(entry, x1, x2, basis)
@@ -225,6 +227,8 @@ def check(repo, tier):
                 bad = []
                 if not (isinstance(res, Arr) and res.ndim == 2 and sz_eq(res.shape[0], x1.shape[1]) and sz_eq(res.shape[1], x2.shape[1])):
                     bad.append(f'result shape {getattr(res, "shape", None)} is not (snapshots of x_1, snapshots of x_2)')
+                for e in sc.events('float-loss') + sc.events('complex-loss'):
+                    bad.append('values of the basis functions are written into an array of a narrower dtype (they are truncated): ' + e['detail'][:110])
                 muls = [e for e in sc.events('inplace-op') if e['op'] == 'mul' and e['target'].buf is res.buf] if isinstance(res, Arr) else []
                 if len(muls) != p:
                     bad.append(f'{len(muls)} Hadamard factors accumulated for {p} modes')
